@@ -208,6 +208,9 @@ def values(rng, quick):
     for n in (0, 1, 2, 127, 128, 129):
         vals.append(("Transaction", dt.Transaction([dt.Input(ref, sig)] * min(n, 3), [dt.Output((1 << 64) - 1, pk)] * n)))
     vals.append(("Transaction", dt.Transaction([dt.Input(ref, sig)] * 128, [dt.Output(1, pk)])))
+    # encodings longer than 64 KiB and 128 KiB (a consolidation spend of several hundred inputs; the size limit of a block allows 200 000 bytes)
+    vals.append(("Transaction", dt.Transaction([dt.Input(dt.OutputReference(bytes([i % 251]) * 32, i), sig) for i in range(700)], [dt.Output(1 + i, pk) for i in range(40)])))
+    vals.append(("Transaction", dt.Transaction([dt.Input(dt.OutputReference(bytes([i % 241]) * 32, i), sig) for i in range(1300)], [dt.Output(7, pk)])))
     # messages
     mid = 0
     for m in netmsg.sample_messages():
